@@ -922,7 +922,7 @@ def core_observe(ctx, lspec, obs, extra):
         if obs == 'astype(dtype)': fn = lambda: L.astype(dt)
         elif extra.get('kw'): fn = lambda: L.to_array(dtype=dt)
         else: fn = lambda: L.to_array(dt)
-        want = a.astype(dt)
+        with np.errstate(all='ignore'): want = a.astype(dt)
     elif obs == 'value': fn = lambda: L.value; want = a
     elif obs == 'asarray': fn = lambda: np.asarray(L); want = a
     elif obs in ('tolist', 'to_list'):
@@ -1243,6 +1243,17 @@ def magnitude_ok(w):
     return not nzv.size or (nzv.max() < 1e150 and nzv.min() > 1e-150)
 
 
+def cast_ok(a, dt):
+    """Values survive the cast without leaving the target's range (int32/int64/float32); else the result is platform noise."""
+    d = np.dtype(dt)
+    if a.dtype.kind != 'f' or not a.size: return True
+    mag = np.abs(a[a != 0])
+    if not mag.size: return True
+    if d.kind == 'i': return bool(mag.max() < 2.0 ** 31)
+    if d.kind == 'f' and d.itemsize < 8: return bool(mag.max() < 1e38 and mag.min() > 1e-37)
+    return True
+
+
 class Pool:
     def __init__(self):
         self.objs = []; self.mirrors = []; self.ro = []; self.bufs = {}
@@ -1534,8 +1545,10 @@ def prop_history(ch, ctx):
             d = differs(T.to_array(), a, exact_shape=True)
             if d: ctx.fail(f'h.to_array|L={tk}|{d}', f'step {step}: to_array {T.to_array().tolist()} mirror {a.tolist()}')
             dtn = ch.choice(f'{t}.dtype', DTYPE_NAMES)
+            if not cast_ok(a, DTYPES[dtn]):
+                ctx.cell('h:skip:cast-out-of-range'); pool.check(ctx, site, region, ti); continue
             out = ctx.call('h.to_array(dtype)', lambda: T.astype(DTYPES[dtn]) if step % 2 else T.to_array(DTYPES[dtn]), region=f'L={tk},dtype={dtn}')
-            wd = a.astype(DTYPES[dtn])
+            with np.errstate(all='ignore'): wd = a.astype(DTYPES[dtn])
             if not isinstance(out, np.ndarray) or out.dtype != wd.dtype or differs(out, wd, exact_shape=True):
                 ctx.fail(f'h.to_array(dtype)|L={tk},dtype={dtn}|mismatch', f'step {step}: conversion to {dtn}: got {describe(out)} want {wd.dtype} {wd.tolist()}')
             # conversion into a caller-supplied buffer that still holds the previous conversion (or junk)
